@@ -2067,6 +2067,12 @@ impl<Octs> RtypeBitmap<Octs> {
     {
         {
             let mut data = octets.as_ref();
+            // Each of the 256 windows can appear at most once and is at
+            // most 34 octets long. Anything longer cannot be a valid bitmap
+            // and could not be composed into record data either.
+            if data.len() > 256 * 34 {
+                return Err(RtypeBitmapErrorEnum::BadRtypeBitmap.into());
+            }
             while !data.is_empty() {
                 // At least bitmap number and length must be present.
                 if data.len() < 2 {
